@@ -146,6 +146,10 @@ func (ex *Exec) intrinsic(fn *ssa.Function, args []Value) (Value, bool) {
 			ex.call(Closure{fn: wp}, []Value{args[0], ex.strConst("R")}, nil)
 			return nil, true
 		}
+	case "(*github.com/trzsz/trzsz-go/trzsz.trzszTransfer).resetTerm":
+		// terminal restore and message printing on the real stdout: outside every claim
+		ex.stubsUsed[name]++
+		return nil, true
 	case "github.com/trzsz/trzsz-go/trzsz.writeToClipboard":
 		ex.stubsUsed[name]++
 		return nil, true
@@ -186,12 +190,9 @@ func (ex *Exec) intrinsic(fn *ssa.Function, args []Value) (Value, bool) {
 		ex.stubsUsed[name]++
 		r := ex.indexByteTerm(ex.sliceBytes(args[0].(Slice)), args[1].(*Term))
 		return ex.ts.Const(64, ex.concretize(r)), true
-	case "github.com/trzsz/trzsz-go/trzsz.simpleTrzszError", "github.com/trzsz/trzsz-go/trzsz.newTrzszError":
+	case "runtime/debug.Stack":
 		ex.stubsUsed[name]++
-		t := fn.Signature.Results().At(0).Type().(*types.Pointer).Elem()
-		so := ex.newLoc(t).(*StructObj)
-		so.fields[0].(*Cell).v = args[0]
-		return Ptr{loc: so}, true
+		return ex.mkByteSlice(nil), true
 	}
 	return nil, false
 }
